@@ -12,6 +12,7 @@ PFields == <<"type", "n1", "{">>           SBrace == <<"}">>
 PVars == <<"query", "(">>                  SVars == <<")", "{", "n1", "}">>
 PDirective == <<"directive", "@", "n1">>
 PExtend == <<"extend">>
+PExtSchema == <<"extend", "schema">>
 PEnum == <<"enum", "n1", "{">>
 PUnion == <<"union", "n1">>
 PInput == <<"input", "n1", "{">>
